@@ -17,7 +17,11 @@ import (
 func init() {
 	p := Registry["C20"]
 	p.Roles["values"] = Role{N: func(t string) int { return 1 }, Case: c20Values}
-	p.Rule += " Role values: every setting takes well-formed values from the whole range of its type (ports 1..65535 including 32767, 32768, 50051; limits up to 2^64-1; durations from 1ns to a year; 1 to 100000 workers; paths with blanks and non-ASCII; 1 to 400 roots), once from the environment and once from the file, and must come back exactly; configuration files of 3 KiB to 300 KiB (comment headers before the settings, settings after hundreds of roots, trailing comments) must be read to their end."
+	// the documented default of numWorkers is runtime.GOMAXPROCS(0) (which the model uses): the
+	// source combinations run once more in processes started with GOMAXPROCS=3 and =5
+	p.Roles["gomaxprocs3"] = Role{N: func(t string) int { return 4 }, Case: c20Combos, Env: []string{"GOMAXPROCS=3"}}
+	p.Roles["gomaxprocs5"] = Role{N: func(t string) int { return 2 }, Case: c20Combos, Env: []string{"GOMAXPROCS=5"}}
+	p.Rule += " Roles gomaxprocs3/5: the source combinations in processes started with GOMAXPROCS=3 and 5 (the documented default of numWorkers is runtime.GOMAXPROCS(0), not the number of CPUs). Role values: every setting takes well-formed values from the whole range of its type (ports 1..65535 including 32767, 32768, 50051; limits up to 2^64-1; durations from 1ns to a year; 1 to 100000 workers; paths with blanks, non-ASCII and with characters that shells, templates and URL parsers interpret ($name, ${name}, ~, %20, {{...}}, #, ?); 1 to 400 roots), once from the environment and once from the file, and must come back exactly; configuration files of 3 KiB to 300 KiB (comment headers before the settings, settings after hundreds of roots, trailing comments) must be read to their end."
 }
 
 // c20Values: well-formed values from the edges of each type, and large files.
@@ -47,8 +51,12 @@ func c20Values(tier string, seed int64, idx int, scratch string) rt.CaseResult {
 		"gcPeriod":     {{"1ns", "1ns", time.Nanosecond}, {"1ms", "1ms", time.Millisecond}, {"24h", "24h", 24 * time.Hour}, {"8760h", "8760h", 8760 * time.Hour}},
 		"sendDuration": {{"1ns", "1ns", time.Nanosecond}, {"10s", "10s", 10 * time.Second}, {"2562047h", "2562047h", 2562047 * time.Hour}},
 		"numWorkers":   {{"1", "1", 1}, {"64", "64", 64}, {"1024", "1024", 1024}, {"100000", "100000", 100000}, {"2147483648", "2147483648", 1 << 31}},
-		"dbPath":       {{`"/var/lib/fs db/with blank"`, "/var/lib/fs db/with blank", "/var/lib/fs db/with blank"}, {`"./данные/бд"`, "./данные/бд", "./данные/бд"}, {"x", "x", "x"}},
-		"rootDirs":     {{y1, e1, w1}, {y400, e400, w400}, {`["/r with blank/a", "/r/ü"]`, "/r with blank/a;/r/ü", "/r with blank/a|/r/ü"}},
+		"dbPath": {{`"/var/lib/fs db/with blank"`, "/var/lib/fs db/with blank", "/var/lib/fs db/with blank"}, {`"./данные/бд"`, "./данные/бд", "./данные/бд"}, {"x", "x", "x"},
+			// characters that mean something to shells, templates and URL parsers mean nothing here
+			{`"/var/lib/fs_db/$data"`, "/var/lib/fs_db/$data", "/var/lib/fs_db/$data"}, {`"/data/${HOME}/$USER/$PORT"`, "/data/${HOME}/$USER/$PORT", "/data/${HOME}/$USER/$PORT"},
+			{`"$VERIF_NO_SUCH_VARIABLE"`, "$VERIF_NO_SUCH_VARIABLE", "$VERIF_NO_SUCH_VARIABLE"}, {`"~/db"`, "~/db", "~/db"}, {`"db%20x/{{.Name}}/#1?a=b"`, "db%20x/{{.Name}}/#1?a=b", "db%20x/{{.Name}}/#1?a=b"}},
+		"rootDirs": {{y1, e1, w1}, {y400, e400, w400}, {`["/r with blank/a", "/r/ü"]`, "/r with blank/a;/r/ü", "/r with blank/a|/r/ü"},
+			{`["/mnt/$DB_PATH/a", "${HOME}/b"]`, "/mnt/$DB_PATH/a;${HOME}/b", "/mnt/$DB_PATH/a|${HOME}/b"}},
 	}
 	writeFile := func(body string) string {
 		f := filepath.Join(scratch, "values.yaml")
